@@ -1095,3 +1095,537 @@ Proof.
   exists (mkDcop "t" "min" [] [ex_v1] [] []). eexists.
   split; vm_compute; reflexivity.
 Qed.
+
+(* ---------- the "values" mapping of a table constraint may be read in any order ---------- *)
+Lemma ext_values_order_independent_l dims table dflt vals vals' :
+  ext_wf dims table -> ext_values dims table = Ok vals -> Permutation vals vals' ->
+  exists m, foldM (ext_load_one dims) vals' (assignment_matrix dims dflt) = Ok m /\
+    map fst m = all_tuples (shape_of dims) /\
+    forall t, In t (all_tuples (shape_of dims)) ->
+              lookup tuple_eqb t m = option_map Some (lookup tuple_eqb t table).
+Proof.
+  intros Hwf Ev Hp. rewrite (ext_values_ok dims table Hwf) in Ev. inversion Ev as [Ev']. clear Ev.
+  rewrite <- Ev' in Hp. apply Permutation_sym in Hp.
+  apply Permutation_map_inv in Hp as [G' [-> HG]].
+  set (F := fun g : Z * list (list value) => (fst g, AStr (join bar_sep (map enc (snd g))))).
+  set (m0 := assignment_matrix dims dflt).
+  set (W := gflat G').
+  set (ws := map (fun p : Z * list value => (idx dims (snd p), fst p)) W).
+  assert (HinG : forall g, In g G' -> In g (group (aps dims table))).
+  { intros g Hg. eapply Permutation_in; [apply Permutation_sym; exact HG|exact Hg]. }
+  assert (HW : forall p, In p W -> In (snd p) (gen_assign dims) /\ fst p = cost dims table (snd p)).
+  { intros p Hp. unfold W, gflat in Hp. apply in_flat_map in Hp as [g [Hg Hp]].
+    apply in_map_iff in Hp as [a [<- Ha]]. simpl.
+    assert (Hin : In (fst g, a) (gflat (group (aps dims table)))).
+    { unfold gflat. apply in_flat_map. exists g. split; [now apply HinG|]. apply in_map_iff; eauto. }
+    apply (proj1 (group_in _ _)) in Hin. unfold aps in Hin. apply in_map_iff in Hin as [a' [E Hin]].
+    inversion E; subst. auto. }
+  assert (Hkeys : map fst m0 = all_tuples (shape_of dims)).
+  { unfold m0, assignment_matrix. rewrite map_map. simpl. apply map_id. }
+  exists (fold_left wstep ws m0).
+  assert (Hfold : foldM (ext_load_one dims) (map F G') m0 = Ok (fold_left wstep ws m0)).
+  { rewrite <- (foldM_map (ext_load_one dims) F).
+    rewrite (foldM_ext _ (fun m g => foldM (load_step dims) (map (fun a => (fst g, a)) (snd g)) m))
+      by (intros; apply (load_group dims table Hwf); auto).
+    rewrite (foldM_flat_map (load_step dims) (fun g : Z * list (list value) => map (fun a => (fst g, a)) (snd g))).
+    fold (gflat G'). fold W. apply foldM_pure. unfold ws.
+    assert (G : forall l, (forall p, In p l -> In p W) ->
+              Forall2 (fun x y => forall s, load_step dims s x = Ok (wstep s y)) l
+                      (map (fun p : Z * list value => (idx dims (snd p), fst p)) l)).
+    { induction l as [|p r IH]; intros Hl; simpl; constructor.
+      - destruct (HW p (Hl p (or_introl eq_refl))) as [Ha Ek].
+        destruct (assignment_ok dims table Hwf _ Ha) as [t [E1 [E2 _]]].
+        intros s. unfold load_step, wstep, idx. rewrite E2, E1. reflexivity.
+      - apply IH. intros; apply Hl; now right. }
+    apply G; auto. }
+  split; [exact Hfold|].
+  destruct (writes_consistent table ws m0) as [K1 K2].
+  { intros t k Hin. unfold ws in Hin. apply in_map_iff in Hin as [p [E Hp]].
+    inversion E; subst. destruct (HW p Hp) as [Ha Ek].
+    destruct (assignment_ok dims table Hwf _ Ha) as [t [E1 [_ [E3 [E4 _]]]]].
+    unfold idx. rewrite E1, Hkeys, Ek. auto. }
+  split; [congruence|]. intros t Ht. rewrite K2.
+  destruct Hwf as [Hne [Hok Hrest]].
+  destruct (indices_cover dims t Hok Ht) as [a [Ha Ea]]. apply gen_assign_spec in Ha.
+  assert (Hex : existsb (fun w : tuple * Z => tuple_eqb (fst w) t) ws = true).
+  { apply existsb_exists. exists (idx dims a, cost dims table a). split.
+    - unfold ws. apply in_map_iff. exists (cost dims table a, a). split; auto.
+      assert (Hin : In (cost dims table a, a) (gflat (group (aps dims table)))).
+      { apply group_in. unfold aps. apply in_map_iff. eauto. }
+      unfold W. unfold gflat in *. apply in_flat_map in Hin as [g [Hg Hin]].
+      apply in_flat_map. exists g. split; auto. eapply Permutation_in; [exact HG|exact Hg].
+    - simpl. unfold idx. rewrite Ea. now apply tuple_eqb_eq. }
+  now rewrite Hex.
+Qed.
+
+(* ====================================================================================== *)
+(* invariance under a re-ordering of the keys of every mapping of the tree (yaml.dump sorts  *)
+(* the keys of every mapping: the tree that is read is a key re-ordering of the tree that    *)
+(* was written)                                                                              *)
+(* ====================================================================================== *)
+Lemma Forall2_perm_r {A B} (R : A -> B -> Prop) l1 l2 l2' :
+  Forall2 R l1 l2 -> Permutation l2 l2' ->
+  exists l1', Permutation l1 l1' /\ Forall2 R l1' l2'.
+Proof.
+  intros HF Hp. revert l1 HF. induction Hp as [|y l2 l2' Hp IH|x y l2|l2 l2' l2'' H1 IH1 H2 IH2]; intros l1 HF.
+  - inversion HF; subst. exists []. split; auto.
+  - inversion HF as [|a b l1r ? Hab Hr]; subst. destruct (IH _ Hr) as [l1' [P F]].
+    exists (a :: l1'). split; auto.
+  - inversion HF as [|a b l1r ? Hab Hr]; subst. inversion Hr as [|a2 b2 l1r2 ? Hab2 Hr2]; subst.
+    exists (a2 :: a :: l1r2). split; [apply perm_swap|]. repeat constructor; auto.
+  - destruct (IH1 _ HF) as [l1' [P1 F1]]. destruct (IH2 _ F1) as [l1'' [P2 F2]].
+    exists l1''. split; auto. eapply perm_trans; eauto.
+Qed.
+
+Lemma Forall2_trans_rel {A B C} (R : A -> B -> Prop) (Q : B -> C -> Prop) l1 l2 l3 :
+  Forall2 R l1 l2 -> Forall2 Q l2 l3 -> Forall2 (fun a c => exists b, R a b /\ Q b c) l1 l3.
+Proof.
+  intros H; revert l3; induction H; intros l3 H2; inversion H2; subst; constructor; eauto.
+Qed.
+
+Lemma Forall2_in_l {A B} (R : A -> B -> Prop) l l' x :
+  Forall2 R l l' -> In x l -> exists y, In y l' /\ R x y.
+Proof.
+  induction 1; simpl; intros Hin; [contradiction|]. destruct Hin as [->|Hin]; eauto.
+  destruct (IHForall2 Hin) as [y' [H1 H2]]. eauto.
+Qed.
+
+Lemma Forall2_in_r {A B} (R : A -> B -> Prop) l l' y :
+  Forall2 R l l' -> In y l' -> exists x, In x l /\ R x y.
+Proof.
+  induction 1; simpl; intros Hin; [contradiction|]. destruct Hin as [->|Hin]; eauto.
+  destruct (IHForall2 Hin) as [x' [H1 H2]]. eauto.
+Qed.
+
+Lemma mapM_forall2_rel {A B C} (f : B -> result C) (P : A -> B -> Prop) (R : A -> C -> Prop) l l' :
+  Forall2 P l l' -> (forall a b, In a l -> P a b -> exists c, f b = Ok c /\ R a c) ->
+  exists cs, mapM f l' = Ok cs /\ Forall2 R l cs.
+Proof.
+  induction 1 as [|a b l l' Hab Hl IH]; intros H.
+  - exists []. split; auto.
+  - destruct (H a b (or_introl eq_refl) Hab) as [c [Ec Rc]].
+    destruct IH as [cs [Ecs Rcs]]; [intros; eapply H; eauto; now right|].
+    exists (c :: cs). simpl. rewrite Ec, Ecs. split; auto.
+Qed.
+
+(* a mapping re-ordered, its values related entry by entry by [vp] *)
+Definition assoc_perm {V} (vp : V -> V -> Prop) (l l' : list (string * V)) : Prop :=
+  exists l'', Permutation l l'' /\ Forall2 (fun e e' => fst e = fst e' /\ vp (snd e) (snd e')) l'' l'.
+Definition oassoc_perm {V} (vp : V -> V -> Prop) (o o' : option (list (string * V))) : Prop :=
+  match o, o' with
+  | Some l, Some l' => assoc_perm vp l l'
+  | None, None => True
+  | _, _ => False
+  end.
+
+Lemma assoc_perm_eq {V} (l l' : list (string * V)) : assoc_perm eq l l' -> Permutation l l'.
+Proof.
+  intros [l'' [Hp HF]]. assert (l'' = l').
+  { clear Hp. induction HF as [|[k v] [k' v'] r r' [E1 E2] _ IH]; auto. simpl in *. subst. reflexivity. }
+  now subst.
+Qed.
+
+Definition ycons_perm (y y' : ycons) : Prop :=
+  yc_type y = yc_type y' /\ yc_function y = yc_function y' /\ yc_variables y = yc_variables y' /\
+  yc_default y = yc_default y' /\
+  match yc_values y, yc_values y' with
+  | Some v, Some v' => Permutation v v'
+  | None, None => True
+  | _, _ => False
+  end.
+
+Lemma constraint_roundtrip_perm_l vs c y y' :
+  NoDup (map v_name vs) -> cons_ok vs c -> yaml_constraint c = Ok y -> ycons_perm y y' ->
+  exists lc, build_constraint (named_vars vs) (c_name c, y') = Ok (c_name c, lc) /\ cons_equiv c lc.
+Proof.
+  intros Hnd Hok Ey Hp. destruct c as [n dims table|n e].
+  - destruct Hok as [Hwf [Hin Hne]]. unfold yaml_constraint in Ey.
+    destruct (ext_values dims table) as [vals|] eqn:Ev; simpl in Ey; [|discriminate].
+    inversion Ey; subst y. clear Ey.
+    destruct y' as [ty fn vr vl df]. destruct Hp as [E1 [E2 [E3 [E4 E5]]]]. simpl in *. subst.
+    destruct vl as [vals'|]; [|contradiction].
+    destruct (ext_values_order_independent_l dims table None vals vals' Hwf Ev E5) as [m [F1 [F2 F3]]].
+    exists (LExt dims m). split; [|simpl; auto].
+    unfold build_constraint. cbn [yc_type yc_function yc_variables yc_values yc_default c_name].
+    change (String.eqb "extensional" "intention") with false.
+    change (String.eqb "extensional" "extensional") with true. cbv iota.
+    cbn [of_opt bind]. rewrite (scope_lookup vs dims Hnd Hin). cbn [bind].
+    destruct Hwf as [Hd _]. destruct dims as [|v0 dr]; [congruence|].
+    cbn [is_nil orb]. rewrite (no_empty_scope _ Hne). rewrite F1. reflexivity.
+  - simpl in Ey. inversion Ey; subst y. clear Ey.
+    destruct y' as [ty fn vr vl df]. destruct Hp as [E1 [E2 [E3 [E4 E5]]]]. simpl in *. subst.
+    exists (LInt e). split; reflexivity.
+Qed.
+
+Lemma yaml_constraints_spec vs cs :
+  NoDup (map v_name vs) -> NoDup (map c_name cs) -> Forall (cons_ok vs) cs ->
+  exists ycs, yaml_constraints cs = Ok ycs /\
+    Forall2 (fun c e => fst e = c_name c /\ yaml_constraint c = Ok (snd e)) cs ycs.
+Proof.
+  intros Hv Hc Hok.
+  assert (G : exists ys, mapM yaml_constraint cs = Ok ys /\
+                         Forall2 (fun c y => yaml_constraint c = Ok y) cs ys).
+  { apply mapM_forall2_exists. intros c Hin. rewrite Forall_forall in Hok.
+    destruct (constraint_roundtrip_l vs c Hv (Hok c Hin)) as [y [_ [E _]]]. eauto. }
+  destruct G as [ys [G1 G2]]. exists (combine (map c_name cs) ys). split.
+  - unfold yaml_constraints. rewrite (yaml_constraints_fold cs ys G1).
+    rewrite (set_all_fresh String.eqb String.eqb_eq); auto.
+    apply forall2_length in G2.
+    assert (E : map fst (combine (map c_name cs) ys) = map c_name cs).
+    { clear - G2. revert ys G2. induction cs; intros [|y ys] H; simpl in *; try congruence.
+      f_equal. apply IHcs. congruence. }
+    now rewrite E.
+  - clear - G2. induction G2; simpl; constructor; auto.
+Qed.
+
+Lemma lookup_perm_nodup {K V} (keq : K -> K -> bool) (keq_eq : forall a b, keq a b = true <-> a = b)
+  k (l l' : list (K * V)) :
+  NoDup (map fst l) -> Permutation l l' -> lookup keq k l' = lookup keq k l.
+Proof.
+  intros Hnd Hp. assert (Hnd' : NoDup (map fst l')).
+  { eapply Permutation_NoDup; [|exact Hnd]. now apply Permutation_map. }
+  apply option_ext. intros v. split; intros H.
+  - apply (lookup_some_in keq keq_eq) in H. apply (lookup_in_nodup keq keq_eq); auto.
+    eapply Permutation_in; [apply Permutation_sym; exact Hp|exact H].
+  - apply (lookup_some_in keq keq_eq) in H. apply (lookup_in_nodup keq keq_eq); auto.
+    eapply Permutation_in; [exact Hp|exact H].
+Qed.
+
+Lemma Forall2_keys {V} (vp : V -> V -> Prop) (l l' : list (string * V)) :
+  Forall2 (fun e e' => fst e = fst e' /\ vp (snd e) (snd e')) l l' -> map fst l = map fst l'.
+Proof. induction 1 as [|e e' r r' [E _] _ IH]; simpl; congruence. Qed.
+
+Definition yroute_perm (y y' : yroute) : Prop :=
+  match y, y' with
+  | YRScalar a, YRScalar b => a = b
+  | YRTable t, YRTable t' => Permutation t t'
+  | _, _ => False
+  end.
+Definition yhost_perm (y y' : yhost) : Prop :=
+  match y, y' with
+  | YHScalar a, YHScalar b => a = b
+  | YHTable d c, YHTable d' c' =>
+      d = d' /\ match c, c' with
+                | Some l, Some l' => Permutation l l'
+                | None, None => True
+                | _, _ => False
+                end
+  | _, _ => False
+  end.
+
+Lemma host_perm_agents : forall L2 hs',
+  Forall2 (fun e e' : string * yhost => fst e = fst e' /\ yhost_perm (snd e) (snd e')) (map hentry L2) hs' ->
+  exists L', hs' = map hentry L' /\
+    Forall2 (fun A A' => a_name A' = a_name A /\ a_default_hosting A' = a_default_hosting A /\
+                         Permutation (a_hosting A) (a_hosting A')) L2 L'.
+Proof.
+  induction L2 as [|A r IH]; intros hs' H; inversion H as [|e e' l l' [E1 E2] Hr]; subst.
+  - exists []. split; auto.
+  - destruct (IH _ Hr) as [L' [-> F]]. destruct e' as [k y']. simpl in E1, E2. subst k.
+    destruct y' as [z|d' c']; [contradiction|]. destruct E2 as [<- E2].
+    destruct c' as [comps'|]; [|contradiction].
+    exists (mkAgent (a_name A) 0 [] (a_default_hosting A) comps' [] :: L'). split; [reflexivity|].
+    constructor; auto.
+Qed.
+
+Lemma agents_load_perm_l ags ags1 t' :
+  agents_wf ags -> Permutation ags ags1 ->
+  agents_list t' = map aentry ags1 ->
+  assoc_perm yroute_perm (yaml_agents_routes ags) (olist (y_routes t')) ->
+  assoc_perm yhost_perm (yaml_agents_hosting ags) (olist (y_hosting t')) ->
+  exists las, build_agents t' = Ok las /\ Forall2 agent_rel ags1 las.
+Proof.
+  intros [Hnd [Hndef [Hdr [Hkeys Hsym]]]] Hperm EA [ys2 [PR FR]] [hs2 [PH FH]].
+  unfold build_agents. rewrite EA.
+  set (ys' := olist (y_routes t')) in *. set (hs' := olist (y_hosting t')) in *.
+  rewrite yaml_agents_hosting_eq in PH by auto. rewrite yaml_agents_routes_eq in PR.
+  set (AL := map aentry ags1).
+  set (Rt := fun a b c => exists A, In A ags /\ a_name A = a /\ In (b, c) (a_routes A)).
+  set (dr := match ags with a :: _ => a_default_route a | [] => 1 end).
+  assert (Hmem : forall A, In A ags -> mem_key String.eqb (a_name A) AL = true).
+  { intros A HA. unfold mem_key.
+    destruct (in_keys_lookup String.eqb String.eqb_eq (a_name A) AL) as [v ->]; auto.
+    unfold AL. rewrite map_map. simpl. apply in_map. eapply Permutation_in; eauto. }
+  assert (Rt_sym : forall a b c, Rt a b c -> Rt b a c).
+  { intros a b c [A [HA [<- Hin]]]. destruct (Hsym A b c HA Hin) as [B [HB [EB HinB]]].
+    exists B. auto. }
+  assert (Rt_fun : forall a b c c', Rt a b c -> Rt a b c' -> c = c').
+  { intros a b c c' [A [HA [EA1 H1]]] [A' [HA' [EA2 H2]]].
+    assert (A' = A) by (apply (name_inj ags); auto; congruence). subst A'.
+    destruct (Hkeys A HA) as [Hk _].
+    apply (lookup_in_nodup String.eqb String.eqb_eq _ _ _ Hk) in H1, H2. congruence. }
+  assert (Rt_agent : forall a b c, Rt a b c -> mem_key String.eqb b AL = true).
+  { intros a b c H. apply Rt_sym in H as [B [HB [<- _]]]. now apply Hmem. }
+  set (Lr := flat_map rentries ags) in *.
+  destruct (dict_built_spec String.eqb String.eqb_eq Lr) as [Y1 [Y2 Y3]].
+  set (ys := set_all String.eqb Lr []) in *.
+  assert (HLr : forall k y, In (k, y) Lr ->
+            exists A, In A ags /\
+              ((k = a_name A /\ y = YRTable (a_routes A) /\ a_routes A <> []) \/
+               (k = default_s /\ y = YRScalar dr))).
+  { intros k y H. unfold Lr in H. apply in_flat_map in H as [A [HA H]]. exists A. split; auto.
+    unfold rentries in H. apply in_app_iff in H as [H|[H|[]]].
+    - left. destruct (a_routes A) eqn:E; simpl in H; [contradiction|].
+      destruct H as [H|[]]. inversion H; subst. repeat split; auto. discriminate.
+    - right. inversion H; subst. split; auto. f_equal. unfold dr.
+      destruct ags as [|a0 r]; [contradiction|]. apply Hdr; simpl; auto. }
+  assert (Hname_nd : forall A, In A ags -> a_name A <> default_s).
+  { intros A HA E. apply Hndef. rewrite <- E. now apply in_map. }
+  (* entries of the re-ordered routes mapping come from entries of the written one *)
+  assert (Hback : forall k y', In (k, y') ys' -> exists y, In (k, y) ys /\ yroute_perm y y').
+  { intros k y' H. destruct (Forall2_in_r _ _ _ _ FR H) as [[k0 y] [Hin [E1 E2]]]. simpl in *. subst k0.
+    exists y. split; auto. eapply Permutation_in; [apply Permutation_sym; exact PR|exact Hin]. }
+  assert (Hforth : forall k y, In (k, y) ys -> exists y', In (k, y') ys' /\ yroute_perm y y').
+  { intros k y H. assert (H2 : In (k, y) ys2) by (eapply Permutation_in; eauto).
+    destruct (Forall2_in_l _ _ _ _ FR H2) as [[k0 y'] [Hin [E1 E2]]]. simpl in *. subst k0. eauto. }
+  assert (Hkeys' : Permutation (map fst ys) (map fst ys')).
+  { rewrite <- (Forall2_keys _ _ _ FR). now apply Permutation_map. }
+  destruct (routes_fold_ok AL Rt Rt_sym Rt_fun Rt_agent dr ys' 1 [])
+    as [dr1 [R [Efold [HndR [D1 [_ HR]]]]]].
+  { eapply Permutation_NoDup; [exact Hkeys'|exact Y1]. }
+  { intros k y' H. destruct (Hback k y' H) as [y [Hy Hyy]]. apply Y2 in Hy.
+    destruct (HLr k y Hy) as [A [HA [[-> [-> Hne]]|[-> ->]]]].
+    - right. split; [now apply Hname_nd|]. split; [now apply Hmem|].
+      destruct y' as [z|tb']; [contradiction|]. simpl in Hyy.
+      exists tb'. split; auto. split.
+      + eapply Permutation_NoDup; [apply Permutation_map; exact Hyy|]. apply Hkeys; auto.
+      + intros b c Hin. exists A. split; auto. split; auto.
+        eapply Permutation_in; [apply Permutation_sym; exact Hyy|exact Hin].
+    - left. destruct y' as [z|tb']; [|contradiction]. simpl in Hyy. subst. auto. }
+  { intros a b c H. discriminate. }
+  { constructor. }
+  rewrite Efold. cbn [bind].
+  assert (HR' : forall a b c, plookup (a, b) R = Some c <-> Rt a b c).
+  { intros a b c. rewrite HR. split.
+    - intros [H|[tb' [H1 H2]]]; [discriminate|].
+      destruct (Hback _ _ H1) as [y [Hy Hyy]]. apply Y2 in Hy.
+      destruct (HLr _ _ Hy) as [A [HA [[-> [-> _]]|[_ ->]]]]; [|contradiction].
+      simpl in Hyy. exists A. split; auto. split; auto.
+      eapply Permutation_in; [apply Permutation_sym; exact Hyy|exact H2].
+    - intros [A [HA [<- Hin]]]. right.
+      assert (Hy : In (a_name A, YRTable (a_routes A)) ys).
+      { apply Y3.
+        + unfold Lr. apply in_flat_map. exists A. split; auto. unfold rentries.
+          apply in_app_iff. left. destruct (a_routes A); [contradiction|]. simpl. auto.
+        + intros y' H. destruct (HLr _ _ H) as [A' [HA' [[E1 [-> _]]|[E1 _]]]].
+          * assert (A' = A) by (apply (name_inj ags); auto). now subst.
+          * exfalso. now apply (Hname_nd A HA). }
+      destruct (Hforth _ _ Hy) as [y' [Hy' Hyy]]. destruct y' as [z|tb']; [contradiction|].
+      exists tb'. split; auto. eapply Permutation_in; [exact Hyy|exact Hin]. }
+  (* hosting *)
+  apply Permutation_sym in PH. apply Permutation_map_inv in PH as [L2 [-> PL2]].
+  destruct (host_perm_agents L2 hs' FH) as [L' [Ehs FL]].
+  assert (HL2 : forall A, In A L2 -> In A ags /\ hcond A = true).
+  { intros A HA. apply filter_In. eapply Permutation_in; [apply Permutation_sym; exact PL2|exact HA]. }
+  assert (Enames : map a_name L' = map a_name L2).
+  { clear - FL. induction FL as [|A A' r r' [E _] _ IH]; simpl; congruence. }
+  destruct (hosting_fold_ok AL L' (mkH 0 [] [])) as [hs [Eh [Hdf [H1 H2]]]].
+  { intros A' HA'. destruct (Forall2_in_r _ _ _ _ FL HA') as [A [HA [E1 [E2 E3]]]].
+    destruct (HL2 A HA) as [HAg _]. rewrite E1. split; [now apply Hname_nd|].
+    split; [now apply Hmem|].
+    eapply Permutation_NoDup; [apply Permutation_map; exact E3|]. apply Hkeys; auto. }
+  { rewrite Enames. eapply Permutation_NoDup; [apply Permutation_map; exact PL2|].
+    now apply NoDup_map_filter. }
+  rewrite Ehs, Eh. cbn [bind]. eexists. split; [reflexivity|].
+  unfold AL. rewrite map_map. apply Forall2_map_r. intros A HA1.
+  assert (HA : In A ags) by (eapply Permutation_in; [apply Permutation_sym; exact Hperm|exact HA1]).
+  unfold agent_rel, aentry. cbn [fst snd a_name]. split; auto. split; auto. split.
+  { unfold getattr at 1. cbn [a_attrs]. apply capacity_kept. }
+  split.
+  - intros o. unfold route. cbn [a_name a_routes a_default_route].
+    destruct (String.eqb (a_name A) o) eqn:Eo; auto.
+    assert (Edr : dr1 = a_default_route A).
+    { rewrite D1.
+      - unfold dr. destruct ags as [|a0 r]; [contradiction|]. apply Hdr; simpl; auto.
+      - eapply Permutation_in; [exact Hkeys'|].
+        apply in_map_iff. exists (default_s, YRScalar dr). split; auto. apply Y3.
+        + unfold Lr. apply in_flat_map. exists A. split; auto. unfold rentries.
+          apply in_app_iff. right. left. f_equal. f_equal. unfold dr.
+          destruct ags as [|a0 r]; [contradiction|]. apply Hdr; simpl; auto.
+        + intros y' H. destruct (HLr _ _ H) as [A' [HA' [[E1 _]|[_ E1]]]]; auto.
+          exfalso. apply (Hname_nd A' HA'). auto. }
+    rewrite Edr.
+    assert (Es : slookup o (routes_of (a_name A) R) = slookup o (a_routes A)).
+    { rewrite routes_of_lookup by auto.
+      assert (Em : match plookup (o, a_name A) R with Some c => Some c | None => plookup (a_name A, o) R end
+                   = plookup (a_name A, o) R).
+      { destruct (plookup (o, a_name A) R) eqn:E; auto.
+        apply HR' in E. apply Rt_sym in E. apply HR' in E. now rewrite E. }
+      rewrite Em. apply option_ext. intros c. rewrite HR'. split.
+      - intros [A' [HA' [E1 Hin]]]. assert (A' = A) by (apply (name_inj ags); auto). subst.
+        apply (lookup_in_nodup String.eqb String.eqb_eq); auto. apply Hkeys; auto.
+      - intros H. apply (lookup_some_in String.eqb String.eqb_eq) in H. exists A. auto. }
+    rewrite Es. reflexivity.
+  - intros c. unfold hosting_cost. cbn [a_hosting a_default_hosting].
+    rewrite hosting_of_lookup.
+    destruct (hcond A) eqn:Ec.
+    + assert (HAL2 : In A L2).
+      { eapply Permutation_in; [exact PL2|]. apply filter_In. auto. }
+      destruct (Forall2_in_l _ _ _ _ FL HAL2) as [A' [HA' [E1 [E2 E3]]]].
+      destruct (H1 A' HA') as [G1 G2]. rewrite E1 in G1, G2.
+      rewrite G1, G2. cbn [h_costs]. unfold plookup at 1. simpl lookup.
+      unfold slookup. rewrite <- (lookup_perm_nodup String.eqb String.eqb_eq c _ _ (proj2 (Hkeys A HA)) E3).
+      rewrite E2. destruct (lookup String.eqb c (a_hosting A')); reflexivity.
+    + assert (Hnot : ~ In (a_name A) (map a_name L')).
+      { rewrite Enames. intros Hin. apply in_map_iff in Hin as [A' [E HA']].
+        destruct (HL2 A' HA') as [HA'g Ec'].
+        assert (A' = A) by (apply (name_inj ags); auto). subst. congruence. }
+      destruct (H2 (a_name A) Hnot) as [G1 G2]. rewrite G1, G2, Hdf. cbn [h_agt h_costs h_default].
+      unfold hcond in Ec. apply orb_false_iff in Ec as [E1 E2].
+      apply negb_false_iff in E1, E2. apply Z.eqb_eq in E1.
+      destruct (a_hosting A); [|discriminate]. simpl. now rewrite E1.
+Qed.
+
+Definition yagents_perm (a a' : option yagents) : Prop :=
+  match a, a' with
+  | None, None => True
+  | Some (YAMap l), Some (YAMap l') => assoc_perm eq l l'   (* an agent entry has at most one key *)
+  | _, _ => False
+  end.
+
+(* t' is t with the entries of every mapping re-ordered (what yaml.dump's key sorting does) *)
+Definition tperm (t t' : ytree) : Prop :=
+  y_name t = y_name t' /\ y_objective t = y_objective t' /\
+  oassoc_perm eq (y_domains t) (y_domains t') /\
+  oassoc_perm eq (y_variables t) (y_variables t') /\
+  oassoc_perm ycons_perm (y_constraints t) (y_constraints t') /\
+  yagents_perm (y_agents t) (y_agents t') /\
+  oassoc_perm yroute_perm (y_routes t) (y_routes t') /\
+  oassoc_perm yhost_perm (y_hosting t) (y_hosting t').
+
+(* the same DCOP with its four dicts iterated in another order *)
+Definition dperm (d d' : dcop) : Prop :=
+  dc_name d = dc_name d' /\ dc_objective d = dc_objective d' /\
+  Permutation (dc_domains d) (dc_domains d') /\ Permutation (dc_variables d) (dc_variables d') /\
+  Permutation (dc_constraints d) (dc_constraints d') /\ Permutation (dc_agents d) (dc_agents d').
+
+Lemma Forall_perm {A} (P : A -> Prop) l l' : Forall P l -> Permutation l l' -> Forall P l'.
+Proof.
+  intros H Hp. rewrite Forall_forall in *. intros x Hx. apply H.
+  eapply Permutation_in; [apply Permutation_sym; exact Hp|exact Hx].
+Qed.
+
+Lemma var_ok_perm ds ds' v : Permutation ds ds' -> var_ok ds v -> var_ok ds' v.
+Proof. intros Hp [H1 H2]. split; auto. eapply Permutation_in; eauto. Qed.
+
+Lemma cons_ok_perm vs vs' c : Permutation vs vs' -> cons_ok vs c -> cons_ok vs' c.
+Proof.
+  intros Hp. destruct c as [n dims table|n e]; simpl; auto. intros [H1 [H2 H3]].
+  split; auto. split; auto. eapply Forall_impl; [|exact H2]. intros v Hv. eapply Permutation_in; eauto.
+Qed.
+
+Lemma oassoc_olist {V} (vp : V -> V -> Prop) l o' :
+  oassoc_perm vp (some_if_nonempty l) o' -> assoc_perm vp l (olist o').
+Proof.
+  destruct l as [|x r]; destruct o' as [l'|]; simpl; try contradiction; auto.
+  intros _. exists []. split; auto.
+Qed.
+
+Theorem yaml_roundtrip_any_key_order_l d t t' :
+  wf d -> to_tree d = Ok t -> tperm t t' ->
+  exists d' l, dperm d d' /\ of_tree t' = Ok l /\ equiv d' l.
+Proof.
+  destruct d as [name obj ds vs cs ags]. unfold wf.
+  cbn [dc_name dc_objective dc_domains dc_variables dc_constraints dc_agents].
+  intros [Hobj [Hd1 [Hd2 [Hv1 [Hv2 [Hc1 [Hc2 Hag]]]]]]] Et Hp.
+  destruct (yaml_constraints_spec vs cs Hv1 Hc1 Hc2) as [ycs [C1 C2]].
+  unfold to_tree in Et. cbn [dc_name dc_objective dc_domains dc_variables dc_constraints dc_agents] in Et.
+  rewrite C1 in Et. cbn [bind] in Et. inversion Et; subst t. clear Et.
+  destruct t' as [n' o' dm' vr' cn' ag' rt' hc'].
+  destruct Hp as [P1 [P2 [P3 [P4 [P5 [P6 [P7 P8]]]]]]].
+  cbn [y_name y_objective y_domains y_variables y_constraints y_agents y_routes y_hosting] in *.
+  subst n' o'.
+  (* domains *)
+  destruct dm' as [dl'|]; [|contradiction]. simpl in P3. apply assoc_perm_eq in P3.
+  rewrite yaml_domains_eq in P3 by auto. apply Permutation_sym, Permutation_map_inv in P3 as [ds' [-> Pd]].
+  assert (Hd1' : NoDup (map d_name ds')).
+  { eapply Permutation_NoDup; [apply Permutation_map; exact Pd|exact Hd1]. }
+  (* variables *)
+  destruct vr' as [vl'|]; [|contradiction]. simpl in P4. apply assoc_perm_eq in P4.
+  rewrite yaml_variables_eq in P4 by auto. apply Permutation_sym, Permutation_map_inv in P4 as [vs' [-> Pv]].
+  assert (Hv1' : NoDup (map v_name vs')).
+  { eapply Permutation_NoDup; [apply Permutation_map; exact Pv|exact Hv1]. }
+  (* constraints *)
+  destruct cn' as [cl'|]; [|contradiction]. simpl in P5. destruct P5 as [cl2 [Pc Fc]].
+  destruct (Forall2_perm_r _ _ _ _ C2 Pc) as [cs' [Pcs Fcs]].
+  pose proof (Forall2_trans_rel _ _ _ _ _ Fcs Fc) as Fcc.
+  destruct (mapM_forall2_rel (build_constraint (named_vars vs')) _ cons_rel _ _ Fcc) as [lcs [Elcs Rlcs]].
+  { intros c [k' y'] Hc [[k y] [[E1 E2] [E3 E4]]]. simpl in *. subst k k'.
+    destruct (constraint_roundtrip_perm_l vs' c y y' Hv1') as [lc [G1 G2]]; auto.
+    - apply (cons_ok_perm vs); auto. rewrite Forall_forall in Hc2. apply Hc2.
+      eapply Permutation_in; [apply Permutation_sym; exact Pcs|exact Hc].
+    - exists (c_name c, lc). split; auto. split; auto. }
+  (* agents *)
+  rewrite yaml_agents_agents_eq in P6 by (apply Hag).
+  assert (HA : exists ags1, Permutation ags ags1 /\
+            agents_list (mkTree (Some name) (Some obj) (Some (map dom_entry ds')) (Some (map var_entry vs'))
+                                (Some cl') ag' rt' hc') = map aentry ags1).
+  { unfold agents_list. cbn [y_agents]. destruct ags as [|a0 ar].
+    - simpl in P6. destruct ag' as [[l'|l']|]; try contradiction. exists []. split; auto.
+    - simpl in P6. destruct ag' as [[l'|l']|]; try contradiction. apply assoc_perm_eq in P6.
+      change (aentry a0 :: map aentry ar) with (map aentry (a0 :: ar)) in P6.
+      apply Permutation_sym, Permutation_map_inv in P6 as [ags1 [-> Pa]]. exists ags1. auto. }
+  destruct HA as [ags1 [Pa EA]].
+  destruct (agents_load_perm_l ags ags1 _ Hag Pa EA) as [las [A1 A2]].
+  { cbn [y_routes]. now apply oassoc_olist. }
+  { cbn [y_hosting]. now apply oassoc_olist. }
+  exists (mkDcop name obj ds' vs' cs' ags1), (mkLoaded name obj (named_doms ds') (named_vars vs') lcs las).
+  split; [|split].
+  - unfold dperm. cbn. repeat split; auto.
+  - unfold of_tree. cbn [y_name y_objective of_opt bind].
+    assert (Eo : negb (String.eqb obj "min" || String.eqb obj "max") = false).
+    { destruct Hobj as [-> | ->]; reflexivity. }
+    rewrite Eo. unfold build_domains, build_variables, build_constraints.
+    cbn [y_domains y_variables y_constraints olist].
+    rewrite <- (yaml_domains_eq ds' Hd1').
+    rewrite (domains_roundtrip_l ds' Hd1' (Forall_perm _ _ _ Hd2 Pd)). cbn [bind].
+    rewrite <- (yaml_variables_eq vs' Hv1').
+    rewrite (variables_roundtrip_l ds' vs' Hd1' Hv1').
+    2:{ eapply Forall_perm; [|exact Pv]. eapply Forall_impl; [|exact Hv2].
+        intros v. now apply var_ok_perm. }
+    cbn [bind]. rewrite Elcs. cbn [bind].
+    rewrite (yaml_domains_eq ds' Hd1'), (yaml_variables_eq vs' Hv1'). rewrite A1. reflexivity.
+  - unfold equiv. cbn. repeat split; auto.
+Qed.
+
+(* the whole pipeline: write, let the YAML layer re-order the keys of every mapping, distribute
+   the top-level sections over files in any order, load *)
+Theorem yaml_roundtrip_pipeline_l d t t' files :
+  wf d -> to_tree d = Ok t -> tperm t t' ->
+  Permutation (List.concat files) (sections_of t') ->
+  exists d' l, dperm d d' /\ load_files files = Ok l /\ equiv d' l.
+Proof.
+  intros Hwf Et Hp Hf. destruct (yaml_roundtrip_any_key_order_l d t t' Hwf Et Hp) as [d' [l [H1 [H2 H3]]]].
+  exists d', l. split; auto. split; auto. now rewrite (multi_file_split_l t' files Hf).
+Qed.
+
+Lemma tperm_nonvacuous_l :
+  exists t t', to_tree ex_dcop = Ok t /\ tperm t t' /\ t <> t'.
+Proof.
+  eexists. eexists. split; [vm_compute; reflexivity|].
+  (* the key-sorted tree: routes {a1, a2, default}, values {5, 7} swapped to show a real re-ordering *)
+  instantiate (1 := mkTree (Some "t1") (Some "max")
+     (Some [("d2", mkYDom [VStr "a"; VStr "b"] (Some "")); ("d1", mkYDom [VInt 1; VInt 2] (Some ""))])
+     (Some [("v3", mkYVar (Some "d1") (Some (VInt 2))); ("v1", mkYVar (Some "d1") None);
+            ("v2", mkYVar (Some "d2") (Some (VStr "a")))])
+     (Some [("c2", mkYCons (Some "intention") (Some "v1 + v3") None None None);
+            ("c1", mkYCons (Some "extensional") None (Some (YVList ["v1"; "v2"]))
+                     (Some [(7, AStr "2 a | 1 b"); (5, AStr "1 a | 2 b")]) None)])
+     (Some (YAMap [("a2", []); ("a1", [("capacity", 10)])]))
+     (Some [("a1", YRTable [("a2", 7)]); ("a2", YRTable [("a1", 7)]); ("default", YRScalar 3)])
+     (Some [("a2", YHTable (Some 5) (Some [("v1", 2)]))])).
+  split; [|discriminate].
+  unfold tperm. cbn [y_name y_objective y_domains y_variables y_constraints y_agents y_routes y_hosting].
+  split; [reflexivity|]. split; [reflexivity|].
+  assert (SW : forall (A : Type) (x y : A), Permutation [x; y] [y; x]) by (intros; apply perm_swap).
+  split; [|split; [|split; [|split; [|split]]]].
+  - eexists. split; [apply SW|]. repeat constructor.
+  - eexists. split; [apply Permutation_sym, (Permutation_cons_append [_; _] _)|]. repeat constructor.
+  - eexists. split; [apply SW|]. constructor; [|constructor; [|constructor]].
+    + simpl. repeat split.
+    + simpl. repeat split. apply SW.
+  - simpl. eexists. split; [apply SW|]. repeat constructor.
+  - eexists. split; [apply (perm_skip _ (SW _ _ _))|]. simpl.
+    constructor; [|constructor; [|constructor; [|constructor]]]; simpl; split; auto.
+  - eexists. split; [apply Permutation_refl|]. constructor; [|constructor]. simpl. split; auto.
+Qed.
